@@ -93,7 +93,14 @@ def _corrupt_contains(e):
     return True
 
 
-CORRUPTORS = {"Trace_Contains": _corrupt_contains, "Trace_Lit": _corrupt_lit, "Trace_Panic": _corrupt_panic, "Trace_Lang": _corrupt_lang, "Trace_Ctx": _corrupt_ctx, "Trace_Reg": _corrupt_reg,
+def _corrupt_total(e):
+    if e["obs"]["out"] == "error":
+        e["obs"]["start"] += 100000
+        return True
+    return False
+
+
+CORRUPTORS = {"Trace_Total": _corrupt_total, "Trace_Contains": _corrupt_contains, "Trace_Lit": _corrupt_lit, "Trace_Panic": _corrupt_panic, "Trace_Lang": _corrupt_lang, "Trace_Ctx": _corrupt_ctx, "Trace_Reg": _corrupt_reg,
               "Trace_Types": _corrupt_types, "Trace_Serde": _corrupt_serde}
 
 
@@ -196,6 +203,23 @@ CHECKS = {
         stages=[
             lang("mutants", "rich", 5000, 200000, ["--nctx", "4", "--depth", "3", "--mutate", "60"], shards=SH),
             lang("scalar-mutants", "c01", 2000, 60000, ["--nctx", "4", "--depth", "4", "--mutate", "60"], shards=SH, seed_off=2),
+        ],
+    ),
+    "C05": dict(
+        level="exploration",
+        rule="inputs parsed in a child process (8 MiB main stack; every 5th on a 2 MiB thread; filter and value-expression entry "
+             "points): 21 structural stress inputs of 1e5 elements (flat chains, nestings of ( / not / ! / any( / call( / [ , mixed, "
+             "brace lists, # runs at 255/256/1e5, long strings/escapes, 1e5 lines, CRLF lines), random bytes decoded lossily, character "
+             "soups over the language's characters incl. multi-byte ones and tabs, token soups, valid random filters with 1-3 character "
+             "insertions/deletions/duplications/truncations/swaps. Trace_Total accepts only outcomes ast/error and checks line, echoed "
+             "line, column range and caret layout of every error against the input. Token soups over the modelled alphabet are "
+             "additionally judged exactly by the L2 parser model (Trace_Lang).",
+        assumptions=["inputs for arbitrary Unicode are produced by harness generators, not derived from the model",
+                     "a child killed by a signal or a missing answer is recorded as a crash outcome"],
+        stages=[
+            trace("inputs", "Trace_Total", ["gen-total", "--stress", "--big", "100000"], 3000, 200000, shards=SH),
+            lang("token-soups", "soup", 6000, 300000, ["--nctx", "2"], shards=SH),
+            lang("mutants", "rich", 2000, 60000, ["--nctx", "2", "--depth", "3", "--mutate", "80"], shards=SH, seed_off=4),
         ],
     ),
     "C06": dict(
